@@ -1,0 +1,27 @@
+//go:build verif
+
+package api
+
+// Contracts for the verif engine (/verif). Comment-only: no code is compiled
+// from this file with or without the tag.
+
+// A request handed to the api is either queued exactly once or answered exactly once with an explicit
+// error (shutting down, queue full) -- never both, never neither.
+//@ func (*api).EnqueueSQE
+//@ props C12
+//@ nopanic C13
+//@ funcvalue ^sqe\.Callback$ records api_callback
+//@ requires a != nil && a.metrics != nil && a.metrics.ApiInFlight != nil && a.metrics.ApiTotal != nil && a.sq != nil && !closed(a.sq)
+//@ requires sqe != nil && sqe.Submission != nil && sqe.Submission.Tags != nil
+//@ requires sqe.Submission.Kind >= t_api.ReadPromise && sqe.Submission.Kind <= t_api.Echo
+//@ ensures calls("api_callback") + sends(a.sq) == 1
+//@ ensures old(a.done) ==> calls("api_callback") == 1
+//@ ensures calls("api_callback") == 1 ==> callarg("api_callback", 0, 0) == nil && (errcode(callarg("api_callback", 0, 1)) == t_api.StatusSystemShuttingDown || errcode(callarg("api_callback", 0, 1)) == t_api.StatusAPISubmissionQueueFull)
+//@ ensures calls("api_callback") == 1 && !old(a.done) ==> errcode(callarg("api_callback", 0, 1)) == t_api.StatusAPISubmissionQueueFull
+
+// The server reports done only when shutdown was requested and no accepted request is still queued.
+//@ func (*api).Done
+//@ props C12
+//@ nopanic C13
+//@ requires a != nil
+//@ ensures result == (a.done && chanlen(a.sq) == 0)
